@@ -3,6 +3,7 @@ import PugProofs.Props.C10
 import PugProofs.C13.Static
 import PugProofs.C13.Deletes
 import PugProofs.Props.C06
+import PugProofs.Props.C08
 /-!
 # C13 — debug (pretty-source) mode changes white space only
 
@@ -158,5 +159,14 @@ theorem C13_static_debug_only_deletes (doc : List Node) (data : Lean.Json) (h : 
 example : Pug.Props.C13D.WsDel "<p>ab</p>".toList "<p> a b</p>\n".toList := by
   refine .keep _ (.keep _ (.keep _ (.drop _ (by decide) (.keep _ (.drop _ (by decide) (.keep _ (.keep _ (.keep _ (.keep _ (.keep _
     (.drop _ (by decide) .nil)))))))))))
+
+/-- **C13 (no state outlives a render or a compilation in package variables).** The inventory of package-level variables of pugjs and
+templatefunctions, regenerated from the Go source on every run, holds nothing but the known entries: no cache, pool, shared empty
+object, memo table or once-guard has been added through which one call, one compilation or one render could reach the next (rounds 5-7
+of the seeded changes added such a variable five times: a shared empty attributes map, a shared empty array, an AST cache, a buffer
+pool). Restated here so that THIS property's check fails on it before any input is drawn. -/
+theorem C13_package_state_inventory :
+    Gen.pkgState_ok = true ∧ Gen.pkgState.all (fun v => Pug.Props.C08.knownPkgState.contains v) = true :=
+  Pug.Props.C08.C08_package_state_inventory
 
 end Pug.Props.C13
